@@ -219,7 +219,44 @@ W_POOL += [
     {"name": "w_xb.nml", "kind": "xml", "raw": _xdoc("b", "-40mV"), "items": [["iaf_cells", "cell0"]], "includes": [],
      "net": {"id": "netxb", "pops": [{"id": "p0", "comp": "cell0", "size": 2}], "projs": [], "ilists": []}},
 ]
+def _vdoc(tag):
+    return ('<neuroml xmlns="http://www.neuroml.org/schema/neuroml2" id="doc_net_%s">\n    <include href="cell.nml"/>\n'
+            '    <pulseGenerator id="pg%s" delay="0ms" duration="10ms" amplitude="1nA"/>\n</neuroml>\n' % (tag, tag))
+
+
+W_POOL += [
+    # a diamond of includes: top1 -> {common, b}, b -> common, top2 -> b
+    {"name": "w_dcommon.nml", "kind": "xml", "items": [["iaf_cells", "iafcommon"]], "includes": []},
+    {"name": "w_db.nml", "kind": "xml", "items": [["exp_one_synapses", "synb"]], "includes": ["w_dcommon.nml"]},
+    {"name": "w_dtop1.nml", "kind": "xml", "items": [["pulse_generators", "pgt1"]], "includes": ["w_dcommon.nml", "w_db.nml"]},
+    {"name": "w_dtop2.nml", "kind": "xml", "items": [["pulse_generators", "pgt2"]], "includes": ["w_db.nml"]},
+    # an XML network file with an include (parser-driven builds)
+    {"name": "w_xnet.nml", "kind": "xml", "items": [["pulse_generators", "pgx"]], "includes": ["w_cell.nml"],
+     "net": {"id": "netxn", "pops": [{"id": "p0", "comp": "iaf0", "size": 2}], "projs": [], "ilists": []}},
+    # a second HDF5 network whose projection runs between populations of other names
+    {"name": "w_proj2.nml.h5", "kind": "h5", "items": [["iaf_cells", "iafr"]], "includes": [],
+     "net": {"id": "wproj2", "pops": [{"id": "q0", "comp": "iafr", "size": 2}, {"id": "q1", "comp": "iafr", "size": 2}],
+             "projs": [{"id": "prq", "pre": "q0", "post": "q1", "syn": "nosyn",
+                        "conns": [[0, "../q0[0]", "../q1[1]"], [1, "../q0[1]", "../q1[0]"]]}], "ilists": []}},
+    # two versions of a model side by side: the same relative name `model/net.nml` from two working directories
+    {"name": "va/model/cell.nml", "kind": "xml", "items": [["iaf_cells", "cellva"]], "includes": []},
+    {"name": "va/model/net.nml", "kind": "xml", "raw": _vdoc("va"), "items": [["pulse_generators", "pgva"]], "includes": ["cell.nml"]},
+    {"name": "vb/model/cell.nml", "kind": "xml", "items": [["iaf_cells", "cellvb"]], "includes": []},
+    {"name": "vb/model/net.nml", "kind": "xml", "raw": _vdoc("vb"), "items": [["pulse_generators", "pgvb"]], "includes": ["cell.nml"]},
+]
 W_HIST = [
+    ("a diamond of includes met in another order by an earlier load",
+     [{"ep": "file", "name": "w_dtop1.nml", "incl": True}, {"ep": "file", "name": "w_dtop2.nml", "incl": True},
+      {"ep": "string", "name": "w_dtop2.nml", "incl": True}, {"ep": "file", "name": "w_dtop1.nml", "incl": True}]),
+    ("two XML-parser builds of a network file with an include",
+     [{"ep": "xmlparser", "name": "w_xnet.nml"}, {"ep": "xmlparser", "name": "w_xnet.nml"}]),
+    ("optimized HDF5 loads of two networks whose projections run between different populations (earlier result looked at again)",
+     [{"ep": "h5", "name": "w_net.nml.h5", "opt": True}, {"ep": "h5", "name": "w_proj2.nml.h5", "opt": True},
+      {"ep": "h5", "name": "w_net.nml.h5", "opt": True}]),
+    ("the same relative file name read from two working directories",
+     [{"ep": "file", "name": "model/net.nml", "incl": True, "rel": True, "cwd": "va"},
+      {"ep": "file", "name": "model/net.nml", "incl": True, "rel": True, "cwd": "vb"},
+      {"ep": "inner_path", "name": "model/net.nml", "incl": True, "rel": True, "cwd": "va"}]),
     ("XML-parser builds of two files that use the same component id with different definitions",
      [{"ep": "xmlparser", "name": "w_xa.nml"}, {"ep": "xmlparser", "name": "w_xb.nml"}, {"ep": "xmlparser", "name": "w_xa.nml"}]),
     ("optimized HDF5 load of a population with properties, twice, then another optimized load",
@@ -336,6 +373,7 @@ def gen_pool(rng, n_xml):
 
 def gen_calls(rng, pool):
     calls = []
+    names = {f["name"] for f in pool}
     for f in pool:
         n = f["name"]
         if n.endswith(".swc"):
@@ -353,7 +391,10 @@ def gen_calls(rng, pool):
                       {"ep": "string", "name": n, "incl": True}, {"ep": "string", "name": n, "incl": False},
                       {"ep": "xml", "name": n}, {"ep": "inner_path", "name": n, "incl": True},
                       {"ep": "inner_str", "name": n, "incl": True}]
-            if f.get("includes"):
+            if "/" in n and any(i not in names for i in f.get("includes", [])):
+                # includes that only exist next to the file: a string load (base path = pool root) cannot resolve them
+                calls = [c for c in calls if not (c["name"] == n and c["ep"] in ("string", "inner_str") and c["incl"])]
+            elif f.get("includes"):
                 some = [x for x in f["includes"] if rng.random() < 0.5]
                 calls.append({"ep": "file", "name": n, "incl": True, "ai": some})
                 calls.append({"ep": "string", "name": n, "incl": True, "ai": some})
@@ -414,7 +455,7 @@ def model_fs(d, pool):
 
 
 def model_call(d, c):
-    p = coq_str(os.path.join(d, c["name"]))
+    p = coq_str(os.path.join(d, c.get("cwd", ""), c["name"]))
     ai = "None" if c.get("ai") is None else "(Some %s)" % coq_list([coq_str(os.path.join(d, a)) for a in c["ai"]])
     ep = c["ep"]
     if ep == "file":
@@ -546,6 +587,16 @@ def run_histories(ck, d, tmp, modes_known, pi=0):
                                   "calls": [calls[x] for x in h[:pos + 1]], "invariant": "class-metadata"},
                            expected={"class_metadata_changed": []}, observed={"class_metadata_changed": r["class_metadata_changed"]},
                            broken="Inst_C07_classmeta.v:classmeta_ok")
+            if r.get("changed_by_later_calls"):
+                nw += 1
+                ck.witness("C07:history:earlier-result-changed-by-later-call:%s" % (c["ep"] + ("-optimized" if c.get("opt") else "")),
+                           "the document returned by call %d of a history is no longer what it was when it was returned, after the "
+                           "later calls of the history ran (parts: %s)%s"
+                           % (pos + 1, sorted(r["changed_by_later_calls"]), ": " + W_HIST[hi][0] if hi < len(W_HIST) else ""),
+                           input={"kind": "history", "pool": prune_pool(pool, [calls[x] for x in h]),
+                                  "calls": [calls[x] for x in h], "invariant": "returned-documents", "position": pos},
+                           expected={"changed_by_later_calls": {}}, observed={"changed_by_later_calls": r["changed_by_later_calls"]},
+                           broken="Inst_C07_fields.v:fields_ok")
             cls = classify_hist_diff(fresh[ci], r)
             if cls:
                 nw += 1
@@ -619,9 +670,13 @@ def probe_warnings(ck, pr):
                    expected={"swc": f.get("swc")}, observed=x, broken="Inst_C07_process.v:process_state_ok")
 
 
+def _call_file(c):
+    return os.path.normpath(os.path.join(c.get("cwd", ""), c["name"]))
+
+
 def prune_pool(pool, calls):
     byname = {f["name"]: f for f in pool}
-    need, todo = set(), [c["name"] for c in calls]
+    need, todo = set(), [_call_file(c) for c in calls]
     while todo:
         n = todo.pop()
         if n in need or n not in byname:
@@ -828,9 +883,11 @@ def gen_obj_stream(rng, tag):
             refs["synapse_obj"] = syn
         if kind == "continuousProjection" and rng.random() < 0.7:
             refs["pre_synapse_obj"] = rng.choice(["silent:preS", "silent:pre" + tag])
-        ops.append(["proj", pid, pre, post, syn.split(":")[1], kind, False, False, None] + ([refs] if refs else []))
+        wd = rng.random() < 0.5
+        ops.append(["proj", pid, pre, post, syn.split(":")[1], kind, wd, wd, None] + ([refs] if refs else []))
         for cid in range(rng.randint(0, 2)):
-            ops.append(["conn", pid, cid, pre, post, 0, 0, 0, 1])
+            # equal numbers of different types: the delay string of a connection is "%sms" % delay
+            ops.append(["conn", pid, cid, pre, post, 0, 0, rng.choice([0, 0.0, 5, 5.0, -0.0]), rng.choice([1, 1, 2])])
         if rng.random() < 0.7:
             ops.append(["fin", pid, pre, post, syn.split(":")[1], kind])
     for k in range(rng.choice([0, 1, 1])):
@@ -857,6 +914,10 @@ def directed_object_schedules():
          [plain, proj("continuousProjection", {"pre_synapse_obj": "silent:preS"})]),
         ("input_comp_obj", [plain, il], [plain, il]),
     ]
+    # equal delay values of different types (0 / 0.0): what one builder formats must not decide what the other writes
+    wproj = ["proj", "pr", "p", "p", "synX", "projection", True, True, None]
+    bodies.append(("value-types:delay", [plain, wproj, ["conn", "pr", 0, "p", "p", 0, 0, 0, 1]],
+                   [plain, wproj, ["conn", "pr", 0, "p", "p", 0, 0, 0.0, 1], ["conn", "pr", 1, "p", "p", 0, 0, -0.0, 1]]))
     out = []
     for name, ba, bb in bodies:
         sa, sb = head("A") + ba, head("B") + bb
@@ -896,7 +957,11 @@ def check_object_schedules(ck, streams, scheds, solo, sres):
             if r[w] != solo[si]:
                 nbad += 1
                 sdiff = first_diff(solo[si]["dump"], r[w]["dump"])
-                ck.witness("C07:interleave:shared-argument-object" + (":" + order.split(":", 1)[1] if order.startswith("stored:") else ""),
+                vt = order.startswith("stored:value-types") or not (ra & rb)
+                ck.witness(("C07:interleave:cross-builder-state" if vt else "C07:interleave:shared-argument-object")
+                           + (":" + order.split(":", 1)[1] if order.startswith("stored:") else ""),
+                           ("two builders active in one process: builder %s ends with a different document than when its handler "
+                            "calls run alone in a fresh process (no object is shared between them)" % w) if vt else
                            "two builders were handed the SAME Python object(s) as object-valued handler argument(s) %s: builder %s "
                            "ends with a different document than when its handler calls run alone (fresh process, freshly built, "
                            "equal objects)" % (sorted(ra & rb), w),
@@ -905,7 +970,7 @@ def check_object_schedules(ck, streams, scheds, solo, sres):
                            observed={"with_shared_objects": r[w], "components_missing": sorted(set(solo[si]["components"]) - set(r[w]["components"])),
                                      "components_extra": sorted(set(r[w]["components"]) - set(solo[si]["components"])),
                                      "first_difference": sdiff},
-                           broken="Inst_C07_argwrites.v:argument_writes_ok")
+                           broken="Inst_C07_globals.v:globals_ok" if vt else "Inst_C07_argwrites.v:argument_writes_ok")
     ck.extra["object_schedules"] = len(scheds)
     ck.extra["object_schedule_views_differing_from_solo"] = nbad
 
@@ -1129,10 +1194,13 @@ def replay(ck, data):
             fresh = out["jobs"][0]["value"]["results"][0]
             got = out["jobs"][1]["value"]["results"][-1]
             cls = classify_hist_diff(fresh, got)
-            invariants = [{"call": i, "process_state_changed": r.get("process_state_changed"),
-                           "class_metadata_changed": r.get("class_metadata_changed")}
-                          for i, r in enumerate(out["jobs"][1]["value"]["results"])
-                          if r.get("process_state_changed") or r.get("class_metadata_changed")]
+            invariants = []
+            for i, r in enumerate(out["jobs"][1]["value"]["results"]):
+                # the two recorded known findings (warnings filters) are not what a stored history witness is about
+                pc = [x for x in r.get("process_state_changed", []) if proc_key(x, calls[i]) not in (K_RESET, K_IGNORE)]
+                if pc or r.get("class_metadata_changed") or r.get("changed_by_later_calls"):
+                    invariants.append({"call": i, "process_state_changed": pc, "class_metadata_changed": r.get("class_metadata_changed"),
+                                       "changed_by_later_calls": r.get("changed_by_later_calls")})
             model = None
             d = translate(ck)
             if d is not None and ck.coqc(ck.gen_v("Gen_C07.v", gen_table(d)))[0]:
